@@ -21,7 +21,7 @@ deviation / weight ratio differ for some input.
 import ast
 
 from ppsa import facts
-from ppsa.astutil import norm, dotted, names_in
+from ppsa.astutil import norm, dotted, names_in, inline_locals
 from ppsa.selftest import Variant, replace_once, in_function
 
 BG = "pandapower.build_gen"
@@ -184,7 +184,9 @@ def rule_norm(ctx):
     ok_mask = bool(msk) and "isin(gen_buses" in ast.unparse(msk[0].value) and isinstance(lp.target, ast.Name) and lp.target.id in ast.unparse(msk[0].value)
     ctx.ob(R, f"{BG}::_normalise_slack_weights::island-mask", ok_mask, "island mask = isin(gen_buses, island)", fi.loc(lp))
     s = asg.get("sum_slack_weights", [])
-    ok_sum = bool(s) and norm(s[0].value, 200).replace(" ", "") in ("np.sum(slack_weights_gen[subnet_gen_mask])",)
+    KEEP = ("slack_weights_gen", "subnet_gen_mask", "gen_buses", "sum_slack_weights")
+    ok_sum = bool(s) and norm(inline_locals(lp, s[0].value, keep=KEEP), 200).replace(" ", "") in (
+        "np.sum(slack_weights_gen[subnet_gen_mask])", "slack_weights_gen[subnet_gen_mask].sum()", "sum(slack_weights_gen[subnet_gen_mask])")
     ctx.ob(R, f"{BG}::_normalise_slack_weights::divisor", ok_sum,
            f"divisor = {norm(s[0].value, 80) if s else '?'}", fi.loc(s[0]) if s else fi.loc())
     div = [n for n in ast.walk(lp) if isinstance(n, ast.AugAssign) and isinstance(n.op, ast.Div)]
@@ -194,7 +196,7 @@ def rule_norm(ctx):
     grp = [n for n in ast.walk(lp) if isinstance(n, ast.Call) and (dotted(n.func) or "").endswith("_sum_by_group")]
     ok_grp = False
     if grp:
-        a = [norm(x, 80).replace(" ", "") for x in grp[0].args]
+        a = [norm(inline_locals(lp, x, keep=KEEP), 80).replace(" ", "") for x in grp[0].args]
         ok_grp = len(a) >= 2 and a[0] == "gen_buses[subnet_gen_mask]" and a[1] == "slack_weights_gen[subnet_gen_mask]"
     ctx.ob(R, f"{BG}::_normalise_slack_weights::grouped-sum", ok_grp,
            "bus weights = grouped sum of the island's weights by the island's buses", fi.loc(grp[0]) if grp else fi.loc())
